@@ -4,7 +4,7 @@ import net, gens
 from runner import Script, Cfg
 
 ID = "C02"
-THEOREMS = ["C02_scope_and_identity"]
+THEOREMS = ["C02_scope_and_identity", "C02_out_of_scope_is_inert"]
 MONITORS = ["C02"]
 RULE = ("destination-MAC grid around every authorised pattern (each single-bit flip), self-IP sets of size 0-3 of both "
         "families with member / non-member destinations, denied and non-denied sources, all 65536 EtherTypes and all "
